@@ -343,6 +343,8 @@ class World:
         def v_int(x=0, *a):
             if _is_sym(x):
                 return x if not isinstance(x, SymBool) else sym.lift(x.t)
+            if isinstance(x, sym.SymQuot):
+                return x.to_int()
             return int(x, *a)
 
         def v_bool(x=False):
